@@ -10,7 +10,9 @@ Correspondence (real code vs Lean model, Model/Export.lean):
     `plot_marginal_quantiles`: arrays handed to matplotlib vs `linspaceEnd` + `curve` over an oracle
     TABLE of the real leaf (pdf / dependence function / icdf evaluated by direct calls)
   * `read_ec_benchmark_dataset` on synthetic files vs `readBenchmark`          (every row, in order)
-Oracle: the clauses of the property as Python predicates on the real code's own output.
+Oracle: the clauses of the property as Python predicates on the real code's own output. Oracle only (no model): drawing
+into the supplied (non-current) / a new axes, returned design conditions, axis labels and par_rename, isodensity legend
+labels and automatic levels, column dtypes of the reader, the reader's default path (shipped dataset A).
 """
 import locale
 import math
